@@ -1,7 +1,7 @@
 #!/bin/bash
 # runs every registered check of the given tier sequentially; prints one line per check
 tier=${1:-quick}
-cd /verif
+cd "$(dirname "$0")"
 for id in $(python3 -c "import json;print(' '.join(sorted(json.load(open('checks.json')))))"); do
   s=$(date +%s)
   out=$(python3 vcheck.py $id $tier 2>&1 | grep -v WARNING | tail -3)
